@@ -1,22 +1,40 @@
-"""tools/genx_tree.py — tiny rules of src/Tree.c that the model RBTree.v hard-codes, re-extracted on every run
-(C03).  A rule that no longer matches is emitted as None (= broken obligation `tree_source_rules_as_modelled`).
+"""tools/genx_tree.py — tiny rules of src/Tree.c that the model RBTree.v hard-codes or takes as a parameter,
+re-extracted on every run (C03).  A rule that no longer matches any ACCEPTED form is emitted as None (= broken
+obligation `tree_source_rules_as_modelled`).  Function bodies are normalised first (comments removed, white space
+collapsed); every accepted form is listed with its justification in design.d/C03.md ("Benign changes").
 
   tree_search_left_when : comparison   the three searches (Tree_Mem, Tree_Get, Tree_Rem) descend with
                                        `node = c < 0 ? *Tree_Left(m, node) : *Tree_Right(m, node);`  -> Lt
-  tree_set_left_when    : comparison   Tree_Set inserts under *Tree_Left in its `if (c < 0)` block          -> Lt
+  tree_set_left_when    : comparison   Tree_Set inserts under *Tree_Left when c < 0 -> Lt.  Forms: (a) the three
+                                       copies `if (c < 0) {... *Tree_Left ...} if (c > 0) {... *Tree_Right ...}`;
+                                       (b) slot pointer `var* link = &m->root; while (*link isnt NULL) {... prnt = node;
+                                       link = c < 0 ? Tree_Left(m, node) : Tree_Right(m, node); } ... *link = newn;
+                                       Tree_Set_Parent(m, newn, prnt);`
   tree_new_node_red     : bool         Tree_Alloc ends with Tree_Set_Red(m, node)
-  tree_iter_from_left   : bool         Tree_Iter_Init walks *Tree_Left, Tree_Iter_Last walks *Tree_Right
-  tree_pred_is_left_max : bool         Tree_Rem copies Tree_Maximum(m, *Tree_Left(m, node)) and Tree_Maximum follows *Tree_Right
+  tree_iter_from_left   : bool         Tree_Iter_Init walks *Tree_Left, Tree_Iter_Last walks *Tree_Right — inline loop
+                                       or through Tree_Minimum / Tree_Maximum (helper inlined one level); the emptiness
+                                       test is `m->nitems is 0` or `m->root is NULL` (equal under rb_inv:
+                                       tree_empty_tests_agree)
+  tree_rem_use_succ     : bool -> bool -> bool   donor rule of Tree_Rem for a node with two children, as a function of
+                                       (predecessor is black) (successor is red): PARAMETER of the model; forms:
+                                       (a) always Tree_Maximum(left) -> false; (b)/(c) the successor Tree_Minimum(right)
+                                       when the predecessor is black and the successor red -> andb
+  tree_donor_helpers_ok : bool         Tree_Maximum follows *Tree_Right only, Tree_Minimum (if present) *Tree_Left only
 """
 import re
+
+
+def norm(b):
+    b = re.sub(r'/\*.*?\*/', ' ', b or '', flags=re.S)
+    return re.sub(r'\s+', ' ', b).strip()
 
 
 def generate(repo, emit, src, func_body):
     s = src('src/Tree.c')
 
     def body(name):
-        return func_body(s, r'static\s+\w+\s*\*?\s*%s\s*\([^)]*\)\s*\{' % name) or ''
-    pat = re.compile(r'node\s*=\s*c\s*([<>])\s*0\s*\?\s*\*Tree_(Left|Right)\(m,\s*node\)\s*:\s*\*Tree_(Left|Right)\(m,\s*node\)\s*;')
+        return norm(func_body(s, r'static\s+\w+\s*\*?\s*%s\s*\([^)]*\)\s*\{' % name) or '')
+    pat = re.compile(r'node = c ([<>]) 0 \? \*Tree_(Left|Right)\(m, node\) : \*Tree_(Left|Right)\(m, node\) ;'.replace(' ;', ';'))
     rules = set()
     for fn in ('Tree_Mem', 'Tree_Get', 'Tree_Rem'):
         m = pat.search(body(fn))
@@ -25,31 +43,65 @@ def generate(repo, emit, src, func_body):
     if len(rules) == 1 and None not in rules:
         op, a, b = rules.pop()
         if a != b:
-            left_on_lt = (op == '<') == (a == 'Left')
-            val = 'Lt' if left_on_lt else 'Gt'
+            val = 'Lt' if (op == '<') == (a == 'Left') else 'Gt'
     emit('tree_search_left_when', ('Definition tree_search_left_when : comparison := %s.' % val) if val else None)
 
+    # ---- Tree_Set
     b = body('Tree_Set')
-    m1 = re.search(r'if\s*\(c\s*<\s*0\)\s*\{(.*?)if\s*\(c\s*>\s*0\)\s*\{(.*)', b, re.S)
     val = None
-    if m1:
+    m1 = re.search(r'if \(c < 0\) \{(.*?)if \(c > 0\) \{(.*)', b)
+    if m1:                                                     # form (a)
         lt, gt = m1.group(1), m1.group(2)
         if 'Tree_Left' in lt and 'Tree_Right' not in lt and 'Tree_Right' in gt and 'Tree_Left' not in gt:
             val = 'Lt'
         elif 'Tree_Right' in lt and 'Tree_Left' not in lt and 'Tree_Left' in gt and 'Tree_Right' not in gt:
             val = 'Gt'
+    else:                                                      # form (b): slot pointer
+        m2 = re.search(r'var prnt = NULL; var\* link = &m->root; while \(\*link isnt NULL\) \{ var node = \*link; '
+                       r'int c = cmp\(Tree_Key\(m, node\), key\); if \(c is 0\) \{[^}]*return; \} prnt = node; '
+                       r'link = c ([<>]) 0 \? Tree_(Left|Right)\(m, node\) : Tree_(Left|Right)\(m, node\); \}', b)
+        if m2 and m2.group(2) != m2.group(3) and re.search(r'\*link = newn; Tree_Set_Parent\(m, newn, prnt\);', b):
+            val = 'Lt' if (m2.group(1) == '<') == (m2.group(2) == 'Left') else 'Gt'
     emit('tree_set_left_when', ('Definition tree_set_left_when : comparison := %s.' % val) if val else None)
 
     b = body('Tree_Alloc')
-    ok = bool(re.search(r'Tree_Set_Red\(m,\s*node\);\s*return\s+node;', b))
+    ok = bool(re.search(r'Tree_Set_Red\(m, node\); return node;', b))
     emit('tree_new_node_red', 'Definition tree_new_node_red : bool := %s.' % ('true' if ok else 'false'))
 
-    bi, bl = body('Tree_Iter_Init'), body('Tree_Iter_Last')
-    ok = bool(re.search(r'while\s*\(\*Tree_Left\(m,\s*node\)\s*isnt\s*NULL\)', bi)) and 'Tree_Right' not in bi \
-        and bool(re.search(r'while\s*\(\*Tree_Right\(m,\s*node\)\s*isnt\s*NULL\)', bl)) and 'Tree_Left' not in bl
-    emit('tree_iter_from_left', 'Definition tree_iter_from_left : bool := %s.' % ('true' if ok else 'false'))
+    # ---- helpers
+    bmax, bmin = body('Tree_Maximum'), body('Tree_Minimum')
+    max_ok = bool(re.search(r'while \(\*Tree_Right\(m, node\) isnt NULL\) \{ node = \*Tree_Right\(m, node\); \} return node;', bmax)) \
+        and 'Tree_Left' not in bmax
+    min_ok = bool(re.search(r'while \(\*Tree_Left\(m, node\) isnt NULL\) \{ node = \*Tree_Left\(m, node\); \} return node;', bmin)) \
+        and 'Tree_Right' not in bmin
 
-    br, bm = body('Tree_Rem'), body('Tree_Maximum')
-    ok = bool(re.search(r'pred\s*=\s*Tree_Maximum\(m,\s*\*Tree_Left\(m,\s*node\)\)', br)) \
-        and bool(re.search(r'while\s*\(\*Tree_Right\(m,\s*node\)\s*isnt\s*NULL\)', bm)) and 'Tree_Left' not in bm
-    emit('tree_pred_is_left_max', 'Definition tree_pred_is_left_max : bool := %s.' % ('true' if ok else 'false'))
+    # ---- iteration ends
+    bi, bl = body('Tree_Iter_Init'), body('Tree_Iter_Last')
+    empty = r'if \((?:m->nitems is 0|m->root is NULL)\) \{ return Terminal; \}'
+    init_ok = bool(re.search(empty + r' var node = m->root; while \(\*Tree_Left\(m, node\) isnt NULL\) \{ node = \*Tree_Left\(m, node\); \} return Tree_Key\(m, node\);', bi)) \
+        or (min_ok and bool(re.search(empty + r' return Tree_Key\(m, Tree_Minimum\(m, m->root\)\);', bi)))
+    last_ok = bool(re.search(empty + r' var node = m->root; while \(\*Tree_Right\(m, node\) isnt NULL\) \{ node = \*Tree_Right\(m, node\); \} return Tree_Key\(m, node\);', bl)) \
+        or (max_ok and bool(re.search(empty + r' return Tree_Key\(m, Tree_Maximum\(m, m->root\)\);', bl)))
+    emit('tree_iter_from_left', 'Definition tree_iter_from_left : bool := %s.' % ('true' if init_ok and last_ok else 'false'))
+
+    # ---- donor rule of Tree_Rem
+    br = body('Tree_Rem')
+    two = re.search(r'if \(\(\*Tree_Left\(m, node\) isnt NULL\) and \(\*Tree_Right\(m, node\) isnt NULL\)\) \{(.*?)\} var chld =', br)
+    rule = None
+    uses_min = False
+    if two:
+        t = two.group(1)
+        tail = (r' bool ncol = Tree_Get_Color\(m, node\); memcpy\(\(char\*\)node \+ 3 \* sizeof\(var\), \(char\*\)%s \+ 3 \* sizeof\(var\), '
+                r'sizeof\(struct Header\) \+ m->ksize \+ sizeof\(struct Header\) \+ m->vsize\); Tree_Set_Color\(m, node, ncol\); node = %s;$')
+        PRED = r'Tree_Maximum\(m, \*Tree_Left\(m, node\)\)'
+        SUCC = r'Tree_Minimum\(m, \*Tree_Right\(m, node\)\)'
+        if re.match(r'^var pred = ' + PRED + ';' + tail % ('pred', 'pred'), t.strip()):
+            rule = 'false'                                                   # (a) always the predecessor
+        elif re.match(r'^var repl = ' + PRED + r'; if \(Tree_Is_Black\(m, repl\)\) \{ var succ = ' + SUCC +
+                      r'; if \(Tree_Is_Red\(m, succ\)\) \{ repl = succ; \} \}' + tail % ('repl', 'repl'), t.strip()):
+            rule, uses_min = 'andb pred_black succ_red', True                # (b)
+        elif re.match(r'^var pred = ' + PRED + r'; var succ = ' + SUCC +
+                      r'; var repl = \(Tree_Is_Black\(m, pred\) and Tree_Is_Red\(m, succ\)\) \? succ : pred;' + tail % ('repl', 'repl'), t.strip()):
+            rule, uses_min = 'andb pred_black succ_red', True                # (c)
+    emit('tree_rem_use_succ', ('Definition tree_rem_use_succ (pred_black succ_red : bool) : bool := %s.' % rule) if rule else None)
+    emit('tree_donor_helpers_ok', 'Definition tree_donor_helpers_ok : bool := %s.' % ('true' if max_ok and (min_ok or not uses_min) else 'false'))
